@@ -116,7 +116,9 @@ static World apply_model(World w, const Op &o) {
     return w;
 }
 static void dfs(const World &w0, const World &w, vector<Op> &ops, int depth, bool ortho, bool transactions, int batch) {
-    if ((int)ops.size() == depth) { if (!ctx.next()) return; ctx.sample(world_str(w0) + " ops: " + [&] { string s; for (auto &o : ops) s += op_str(o) + " "; return s; }()); run_history(w0, ops, ortho, transactions, batch); ctx.done_case(); return; }
+    if ((int)ops.size() == depth) { if (!ctx.next()) return; string hs = world_str(w0) + " ops: " + [&] { string s; for (auto &o : ops) s += op_str(o) + " "; return s; }(); ctx.sample(hs); ctx.announce(hs);
+        try { run_history(w0, ops, ortho, transactions, batch); } catch (vpsc::CriticalFailure &f) { ctx.library_abort(f.what(), mcx::fmt("%s transactions=%d batch=%d ", ortho ? "orthogonal" : "polyline", transactions, batch) + hs); }
+        ctx.done_case(); return; }
     vector<Op> pend; if (batch > 1) for (size_t k = (ops.size() / batch) * batch; k < ops.size(); k++) pend.push_back(ops[k]);
     for (auto &o : legal_ops(w, pend)) { if (ctx.stopped()) return; ops.push_back(o); dfs(w0, apply_model(w, o), ops, depth, ortho, transactions, batch); ops.pop_back(); }
 }
